@@ -137,7 +137,7 @@ def env_of(case, slots, val):
 # ----------------------------------------------------------------------------- tree helpers
 def children(t):
     tag = t[0]
-    if tag in ("in", "lit", "ek", "aconst"):
+    if tag in ("in", "lit", "ek", "aconst", "kb", "kbit"):
         return []
     if tag == "resize" or tag == "slice":
         return [t[3]]
@@ -155,7 +155,7 @@ def children(t):
 
 
 def is_leaf(t):
-    return t[0] in ("in", "lit", "ek")
+    return t[0] in ("in", "lit", "ek", "kb", "kbit")
 
 
 def n_ops(t):
@@ -227,6 +227,10 @@ class Renderer:
             return f"({t[1]})" if t[1] < 0 else str(t[1])
         if tag == "ek":
             return f"E{t[1]}.m{t[1]}k{t[2]}"
+        if tag == "kb":
+            return "True" if t[1] else "False"
+        if tag == "kbit":
+            return f"Bit({t[1]})"
         if tag in BINSYM:
             return f"({r(t[1])} {BINSYM[tag]} {r(t[2])})"
         if tag in ("truncdiv", "rem"):
@@ -594,6 +598,42 @@ def cells_special(W):
     return out
 
 
+def _const(kind, truthy):
+    if kind == 0:
+        return ["kb", int(truthy)]
+    if kind == 1:
+        return ["lit", 3 if truthy else 0]
+    return ["kbit", int(truthy)]
+
+
+def cells_const_mix(full=False):
+    """and / or / any / all over lists of 2..4 elements mixing run-time operands with 0..3 compile-time constants of
+    both truth values at every position (Python bool, int, constant Bit).  full: every constant kind at every
+    position; else the kinds rotate (all truth-value patterns are still enumerated)."""
+    ports = [["a", "bit", None], ["b", "bool", None], ["c", "u", 2], ["d", "bit", None]]
+    rts = [["in", "a"], ["in", "b"], ["in", "c"], ["in", "d"]]
+    out, rot = [], 0
+    for L in (2, 3, 4):
+        for k in range(0, min(3, L - 1) + 1):
+            for pos in itertools.combinations(range(L), k):
+                for truths in itertools.product((0, 1), repeat=k):
+                    kind_sets = list(itertools.product((0, 1, 2), repeat=k)) if full else [None]
+                    for kinds in kind_sets:
+                        if kinds is None:
+                            rot += 1
+                            kinds = [(rot + j) % 3 for j in range(k)]
+                        xs, ci, ri = [], 0, rot
+                        for i in range(L):
+                            if i in pos:
+                                xs.append(_const(kinds[ci], truths[ci]))
+                                ci += 1
+                            else:
+                                xs.append(rts[(ri + i) % 4])
+                        for o in NARY:
+                            out.append((ports, [o] + xs))
+    return out
+
+
 def pack(cells, per=8):
     """group cells by their port declaration, chunk into cases of `per` expressions."""
     groups = {}
@@ -911,8 +951,16 @@ class _Gen:
         return ["bool", self.sub(self.any_type(truthy=True), d)]
 
     def mk_nary(self, ty, d):
-        n = self.draw(self.st.integers(2, 3))
-        return [self.pick(NARY)] + [self.sub(self.any_type(truthy=True), d) for _ in range(n)]
+        n = self.draw(self.st.integers(2, 4))
+        xs = [self.sub(self.any_type(truthy=True), d) for _ in range(n)]
+        if self.chance(0.5):  # compile-time constants of both truth values among the run-time operands
+            for i in range(1 if n == 2 else self.draw(self.st.integers(1, n - 1))):
+                j = self.draw(self.st.integers(0, n - 1))
+                if sum(1 for x in xs if has_runtime(x)) > 1 or not has_runtime(xs[j]):
+                    xs[j] = _const(self.draw(self.st.integers(0, 2)), self.draw(self.st.integers(0, 1)))
+        if not any(has_runtime(x) for x in xs):
+            xs[0] = self.leaf(("bit", None))
+        return [self.pick(NARY)] + xs
 
     def mk_anyallv(self, ty, d):
         return [self.pick(["anyv", "allv"]), self.sub(self.any_type(vec_only=True), d)]
